@@ -28,5 +28,13 @@ package storage
 //@ func (*storage.InMemoryStore).InsertLogs
 //@   property C04
 //@   requires m != nil
+// (what the store holds exists)
+//@   assumes forall j3 in 0..len(m.transactions) :: allocated(m.transactions[j3])
 //@   ensures m.logs == concat(old(m.logs), logs)
+// ... and to the transactions: a revert entry flags the transaction it names (the one whose id is RevertedTransactionID,
+// not the reverting one), flags are never cleared, transactions are only appended
+//@   ensures forall i0 in 0..len(logs) :: typeis(logs[i0].Data, "ledger.RevertedTransactionLogPayload") ==> (exists j0 in 0..len(m.transactions) :: val(m.transactions[j0].ID) == val(as(logs[i0].Data, "ledger.RevertedTransactionLogPayload").RevertedTransactionID) && m.transactions[j0].Reverted)
 //@   loop 1 invariant m.logs == concat(old(m.logs), logs)
+//@   loop 1 invariant 0 - 1 <= rangeindex && rangeindex < len(logs)
+//@   loop 1 invariant forall j2 in 0..len(m.transactions) :: allocated(m.transactions[j2])
+//@   loop 1 invariant forall i1 in 0..rangeindex+1 :: typeis(logs[i1].Data, "ledger.RevertedTransactionLogPayload") ==> (exists j1 in 0..len(m.transactions) :: val(m.transactions[j1].ID) == val(as(logs[i1].Data, "ledger.RevertedTransactionLogPayload").RevertedTransactionID) && m.transactions[j1].Reverted)
